@@ -143,6 +143,12 @@ def reset_fft_manager():
     """Reset FFTManager singleton (call in forked worker processes)."""
     global _fft_manager
     _fft_manager = None
+    # Drop the pyfftw plan cache as well. A forked worker inherits the parent's
+    # cache object without its background thread, and with its locks in
+    # whatever state they had at fork time: if the parent's cache thread was
+    # culling at that moment the child would block forever on its first new
+    # plan. The next FFTManager creates a fresh cache.
+    pyfftw.interfaces.cache.disable()
 
 
 def fft2(input_data, norm="backward"):
